@@ -9,7 +9,13 @@ Tie:    (A) the real controller struct driven through its real Receive on a real
 Oracle: on the real runs — every accepted job in exactly one of pending / some binding's unconfirmed / confirmed; each
         job confirmed to the producer at most once and only after some worker was sent it; a stopped worker's jobs are
         pending again at the front or already with another worker; no pending job while a live worker has free
-        demand; cursor in range; bindings map and order agree.
+        demand; cursor in range; bindings map and order agree; a RegistrationAck never tells a re-registering worker
+        to resume beyond what it confirmed itself (worker-side state loss under the same PID is a generator dimension);
+        a panic of the controller's Receive is captured and reported with the schedule; durable flows also get
+        supervised restarts of the controller with workers attached (PreStart + PostStart on the same instance:
+        no binding may survive, reloaded jobs are conserved). C44's text does not exclude producer-controller
+        restarts (only C42's does), so they are in the oracle's domain for durable flows; a volatile flow loses its
+        pool on restart by design and is not restarted.
 """
 import json
 import os
